@@ -48,6 +48,14 @@ CHECKS = {
    "Runtime monitor on the real upstream.Server.Rebalance() with real WebSocket+yamux sessions and injected routing views: per case the number of sessions closed by one call is read from the server and cross-checked with the clients, and judged against exact-rational reference bounds. The parameter grid is enumerated completely; further seeded cases use up to 300 sessions.",
    "Safety only (no lower bound); rebalance configuration swapped through a verif-tagged setter; quiescence (no closed-but-registered session) established before each call.",
    "runtime monitoring: reference-bound oracle over an enumerated configuration grid with real sessions", "4/C19"),
+ "C07": (E2, "exploration",
+   "Runtime monitor under the race detector: over six real tunnel paths (dialer, forward proxy, two nodes, client forwarder, agent TCP proxy, bare WebSocket adapter) seeded bidirectional byte streams with hostile chunking are compared incrementally at both ends, a seeded end closes and the other must see every byte then end-of-stream; after each batch the proxy in-flight gauges and the goroutine count must be back at baseline.",
+   "Connections per shard are sequential; the closing end drains its direction first (WebSocket tunnels have no half-close; an unread empty message at close is TCP-level unread data and is excluded).",
+   "runtime monitoring: incremental prefix-equality oracle + close-propagation and resource-return checks on real tunnels", "4/C07"),
+ "C08": (E2, "exploration",
+   "Runtime monitor: a raw-socket client and a raw recording responder on a piko listener compare, per seeded request, what was sent with what the upstream saw and what the upstream answered with what the client received, modulo the documented additions; the gateway failure matrix (400/502/504, upgrade exemption, timing bounds) is enumerated completely on the local and the forwarded path with a 20 s no-hang watchdog.",
+   "Only RFC-legal request targets (no raw non-ASCII); reason phrases, header-name case and framing headers are not compared; responses always carry a Content-Type.",
+   "runtime monitoring: differential wire-level oracle (sent vs seen, answered vs received) + enumerated fault matrix with timing bounds", "4/C08"),
  "C11": (E1, "exploration",
    "Runtime monitor over seeded simulator executions of the real membership code with a logical clock: per-step flag rules on every survivor (local node never flagged/removed, left only if the owner left, left never revived, flagged nodes scheduled for removal and outside the live set, routing status follows flags, no discovery from a digest marking the node left, sweeps remove exactly what is due) plus bounded crash/leave closures (forgotten by all within expiry + (N+3) detection periods, stays forgotten for two more expiry periods).",
    "Failure detector replaced by a logical-clock implementation of the same interface (the real one is C12's subject); sequential scheduler; liveness restated as a bound.",
